@@ -154,8 +154,12 @@ func runC13(r *core.Run) {
 						var fails []string
 						kinds := map[string]bool{}
 						sl := append(append([]ref.Sl{}, p...), ref.Sl{})
+						mview := ref.RootC(shape)
 						for _, a := range last {
 							sl[len(sl)-1] = a
+							if _, _, merr := mview.Slice(sl); merr == ref.ErrUnspecified {
+								continue // empty ranges: outside the argument space C02 judges
+							}
 							args := atlas.ToSlices(sl)
 							var ss tensor.Shape
 							var v tensor.View
@@ -425,7 +429,11 @@ func c13RepeatConcat(r *core.Run) {
 						r.Op(2)
 						r.Outcome("Concat:" + o1.Class + "/" + o2.Class)
 						if (o1.Class == "ok") != (o2.Class == "ok") {
-							kinds["error-disagreement"] = true
+							k := "error-disagreement"
+							if axis == -1 && o1.Class == "ok" && o2.Class == "panic" {
+								k += "[KF:concat-allaxes]"
+							}
+							kinds[k] = true
 							fails = append(fails, fmt.Sprintf("axis %d shapes %v: Shape.Concat %s, Concat %s", axis, shapes, o1.Class, o2.Class))
 						} else if o1.Class == "ok" && !ref.EqInts(ps, res.Shape()) {
 							kinds["wrong-shape"] = true
@@ -546,7 +554,11 @@ func c13Reshape(r *core.Run) {
 					}
 					for i := range want {
 						if !ref.Same(got[i], want[i]) {
-							kinds["wrong-value"] = true
+							k := "wrong-value"
+							if lay == "FT" {
+								k += "[KF:colmajor-data-movement]" // Reshape materialises the pending transpose of a column-major tensor
+							}
+							kinds[k] = true
 							fails = append(fails, fmt.Sprintf("reshape %v (%s) -> %v: element %d is %s expected %s (flat order not preserved)", shape, lay, tg, i, ref.Fmt(got[i]), ref.Fmt(want[i])))
 							break
 						}
